@@ -16,14 +16,17 @@
                                     `merge_program(rep, other)` no later `next`, whatever else happens in
                                     between, yields `other`;
     * C12_Beap_merge_banks_shrink — `merge_program` only removes programs from the banks.
-  The merge half of the statement is FALSE on the code as it is (finding C12-F5, both directions):
+  The merge half of the statement is FALSE on the code as it is, in both directions (findings C12-F5, C12-F6):
     * finding_C12_F5_contains — `X -> a | m(Y,Y)`, `Y -> a | b`, all costs 1: after `a`, `m(a,a)` have been
       yielded, `merge_program(_, a)`; the next program yielded is `m(a,b)`, which contains `a`
       (the tuples of the running `itertools.product` were built before the merge);
-    * finding_C12_F5_lost — same grammar with `b` of cost 2: after `a`, `m(a,a)` and `merge_program(_, a)`
+    * finding_C12_F6_lost — same grammar with `b` of cost 2: after `a`, `m(a,a)` and `merge_program(_, a)`
       the generator stops without ever yielding `m(b,b)`, which does not contain `a`
       (`_bank[Y][0]` became empty, `_query_list_` answers "(False, [])", the element is treated as
-      the end of a finite grammar and its successors are not pushed).
+      the end of a finite grammar and its successors are not pushed);
+    * C12_Beap_fix_F6_witness — with the proposed one-line fix (`Env.fixEmptied = true`:
+      `return len(bank[cost_index]) == 0, bank[cost_index]`) the same history yields `m(b,b)` and stops.
+  Every theorem of the three part files holds for both values of `Env.fixEmptied`.
   The filter half (every program all of whose sub-programs are accepted is yielded; no duplicates) is
   compared on every generated case (exact correspondence + independent oracle), not proved.
 -/
@@ -98,7 +101,8 @@ def mG : TT Nat Unit :=
     rules := [ (nX, [(sy 0, ([], ())), (sy 1, ([(Ty.base "int", 1), (Ty.base "int", 1)], ()))]),
                (nY, [(sy 0, ([], ())), (sy 2, ([], ()))]) ] }
 def mW (cb : Rat) : AList (NT Nat Unit) (AList Sym Rat) := [ (nX, [(sy 0, 1), (sy 1, 1)]), (nY, [(sy 0, 1), (sy 2, cb)]) ]
-def mE (cb : Rat) (f : Prog → Bool) : Env Nat := { G := mG, W := mW cb, filter := f, recursive := false }
+def mE (cb : Rat) (f : Prog → Bool) (fix : Bool := false) : Env Nat :=
+  { G := mG, W := mW cb, filter := f, recursive := false, fixEmptied := fix }
 def pa : Prog := .node (sy 0) []
 def pb : Prog := .node (sy 2) []
 def pm (x y : Prog) : Prog := .node (sy 1) [x, y]
@@ -112,10 +116,17 @@ theorem finding_C12_F5_contains :
 
 /-- with `b` of cost 2: after `a`, `m(a,a)` and `merge_program(_, a)` the generator stops at once;
     `m(b,b)` (derivable, not containing `a`) is never yielded -/
-theorem finding_C12_F5_lost :
+theorem finding_C12_F6_lost :
     (match take (mE 2 fun _ => true) 100 2 (Gen.new mG) [] with
      | some (g, ys, _) => (take (mE 2 fun _ => true) 100 10 (Beap.merge g pa fun _ => true) []).map (fun r => (ys, r.2.1, r.2.2))
      | none => none) = some ([pa, pm pa pa], [], true) ∧ gen mG (pm pb pb) nX = true := by
+  decide +kernel
+
+/-- with the fix C12-F6 the same history yields `m(b,b)`, the only remaining program that does not contain `a` -/
+theorem C12_Beap_fix_F6_witness :
+    (match take (mE 2 (fun _ => true) true) 100 2 (Gen.new mG) [] with
+     | some (g, ys, _) => (take (mE 2 (fun _ => true) true) 100 10 (Beap.merge g pa fun _ => true) []).map (fun r => (ys, r.2.1, r.2.2))
+     | none => none) = some ([pa, pm pa pa], [pm pb pb], true) := by
   decide +kernel
 
 /-- without the merge the same run yields `m(a,b)`, `m(b,a)`, `m(b,b)` and stops -/
